@@ -25,27 +25,27 @@ Print Assumptions C05_inv_init.
     orphan, side branch, forged parent or number, triggering a reorganisation of any depth or a
     failed one) that does not carry BlockNo 0. *)
 Theorem C05_add_block_inv :
-  forall (apply : sroot -> block -> option sroot) (orphan_cap : nat) (spent : sroot -> txid -> bool),
+  forall (apply : sroot -> block -> option sroot) (orphan_cap : nat) (f27 : bool) (spent : sroot -> txid -> bool),
   (forall r b r', apply r b = Some r' -> NoDup (txs b) /\ forall t, In t (txs b) -> spent r t = false) ->
   (forall r b r' t, apply r b = Some r' -> spent r' t = spent r t || mem t (txs b)) ->
   forall (U : block -> Prop), (forall a b, U a -> U b -> hash_field a = hash_field b -> a = b) ->
   forall (g : block),
-  forall n b, Inv apply spent U g n -> U b -> no b <> 0 ->
-  Inv apply spent U g (fst (add_block apply true orphan_cap n b)).
-Proof. exact add_block_inv. Qed.
+  forall n b, Inv apply spent U g n -> U b -> (f27 = true \/ no b <> 0) ->
+  Inv apply spent U g (fst (add_block apply true f27 orphan_cap n b)).
+Proof. intros; eapply add_block_inv; eauto. Qed.
 Print Assumptions C05_add_block_inv.
 
 (** Hence after every history of arrivals (with any LIB stream). *)
 Theorem C05_history_inv :
-  forall (apply : sroot -> block -> option sroot) (orphan_cap : nat) (spent : sroot -> txid -> bool),
+  forall (apply : sroot -> block -> option sroot) (orphan_cap : nat) (f27 : bool) (spent : sroot -> txid -> bool),
   (forall r b r', apply r b = Some r' -> NoDup (txs b) /\ forall t, In t (txs b) -> spent r t = false) ->
   (forall r b r' t, apply r b = Some r' -> spent r' t = spent r t || mem t (txs b)) ->
   forall (U : block -> Prop), (forall a b, U a -> U b -> hash_field a = hash_field b -> a = b) ->
   forall (g : block),
   forall (l : list (N * block)) n, Inv apply spent U g n ->
-  (forall x, In x l -> U (snd x) /\ no (snd x) <> 0) ->
-  Inv apply spent U g (history apply true orphan_cap n l).
-Proof. exact history_inv. Qed.
+  (forall x, In x l -> U (snd x) /\ (f27 = true \/ no (snd x) <> 0)) ->
+  Inv apply spent U g (history apply true f27 orphan_cap n l).
+Proof. intros; eapply history_inv; eauto. Qed.
 Print Assumptions C05_history_inv.
 
 (** Query surface: a transaction of a main-chain block is reported confirmed at its block and
@@ -74,6 +74,19 @@ Theorem C05_get_tx_sound :
 Proof. intros; eapply inv_get_tx_sound; eauto. Qed.
 Print Assumptions C05_get_tx_sound.
 
+(** With the BlockNo-0 repair (fixes/F27_blockno_zero.diff, [f27 = true]) no hypothesis on the block
+    number is needed: the invariant holds after every history of blocks of U. *)
+Theorem C05_history_inv_repaired :
+  forall (apply : sroot -> block -> option sroot) (orphan_cap : nat) (spent : sroot -> txid -> bool),
+  (forall r b r', apply r b = Some r' -> NoDup (txs b) /\ forall t, In t (txs b) -> spent r t = false) ->
+  (forall r b r' t, apply r b = Some r' -> spent r' t = spent r t || mem t (txs b)) ->
+  forall (U : block -> Prop), (forall a b, U a -> U b -> hash_field a = hash_field b -> a = b) ->
+  forall (g : block) (l : list (N * block)) n, Inv apply spent U g n ->
+  (forall x, In x l -> U (snd x)) ->
+  Inv apply spent U g (history apply true true orphan_cap n l).
+Proof. intros; eapply history_inv; eauto. Qed.
+Print Assumptions C05_history_inv_repaired.
+
 (** F7: for the unrepaired reorg the statement is false (G-A1 main, G-B1 side, B2 invalid). *)
 Theorem C05_add_block_inv_refuted :
   exists (apply : sroot -> block -> option sroot) (spent : sroot -> txid -> bool) (U : block -> Prop)
@@ -82,7 +95,7 @@ Theorem C05_add_block_inv_refuted :
     (forall r b r' t, apply r b = Some r' -> spent r' t = spent r t || mem t (txs b)) /\
     (forall a b, U a -> U b -> hash_field a = hash_field b -> a = b) /\
     Inv apply spent U g n /\ U b /\ no b <> 0 /\
-    ~ Inv apply spent U g (fst (add_block apply false 100 n b)).
+    ~ Inv apply spent U g (fst (add_block apply false false 100 n b)).
 Proof. exact add_block_inv_refuted. Qed.
 Print Assumptions C05_add_block_inv_refuted.
 
@@ -94,6 +107,6 @@ Theorem C05_add_block_inv_no0_refuted :
     (forall r b r' t, apply r b = Some r' -> spent r' t = spent r t || mem t (txs b)) /\
     (forall a b, U a -> U b -> hash_field a = hash_field b -> a = b) /\
     Inv apply spent U g n /\ U b /\ no b = 0 /\
-    ~ Inv apply spent U g (fst (add_block apply true 100 n b)).
+    ~ Inv apply spent U g (fst (add_block apply true false 100 n b)).
 Proof. exact add_block_inv_no0_refuted. Qed.
 Print Assumptions C05_add_block_inv_no0_refuted.
